@@ -225,7 +225,7 @@ Record fairec := { f_len : Z; f_start : Z; f_bases : Z; f_bytes : Z }.
 
 Definition maxInt64 : Z := 2 ^ 63 - 1.
 
-(** One record of fai.ReadFrom (csv hands out exactly FieldsPerRecord = 5 fields). *)
+(** The conversion of one record of five fields (fai.ReadFrom checks the count, see [fai_line]). *)
 Definition fai_record (conv : list Z -> option Z) (fields : list (list Z)) : outcome fairec :=
   recover_parse_error (
     chk (inb fields fai_nameField) (
@@ -245,6 +245,12 @@ Definition fai_record (conv : list Z -> option Z) (fields : list (list Z)) : out
             if Z.quot (room - st) by_ <? Z.quot l ba then Err 1 else Ok tt))
           else Ok tt) ;;
     Ok {| f_len := l; f_start := st; f_bases := ba; f_bytes := by_ |})).
+
+(** One non-empty line of fai.ReadFrom on main: rec := strings.Split(text, "\t");
+    if len(rec) != 5 { csv.ErrFieldCount }; then the conversion. *)
+Definition fai_line (conv : list Z -> option Z) (text : list Z) : outcome fairec :=
+  let rec := split_on 9 text in
+  if negb (zlen rec =? 5) then Err 2 else fai_record conv rec.
 
 (** Record.Position(p): explicit panic outside [0, Length), then
     r.Start + int64(p/r.BasesPerLine*r.BytesPerLine + p%r.BasesPerLine). *)
@@ -270,13 +276,16 @@ Fixpoint conv_table (fields : list (list Z)) (vals : list (option Z)) (x : list 
   | _, _ => None
   end.
 
+Fixpoint concat_tab (fs : list (list Z)) : list Z :=
+  match fs with [] => [] | [f] => f | f :: t => f ++ 9 :: concat_tab t end.
+
 Definition c11idx_agree (c : c11idx) : bool :=
   match c with
   | IBai s cl nref => idx_agree (bam_read_index s) cl nref
   | ITbi s cl nref => idx_agree (tabix_read_from s) cl nref
   | ICsi s cl nref => idx_agree (csi_read_from s) cl nref
   | IFai fields vals cl pp =>
-    match fai_record (conv_table fields vals) fields with
+    match fai_line (conv_table fields vals) (concat_tab fields) with
     | Ok r => (cl =? 0) && Bool.eqb pp
                 (negb (f_len r =? 0) && (is_panic (fai_position r 0) || is_panic (fai_position r (f_len r - 1))))
     | o => cls o =? cl
